@@ -47,6 +47,9 @@ CHECKS = {
     "C16": ("ordering (dominance) rules inside wait_paused/resume + who-may-write/notify enumeration + must-pass-through placement of the gate in Client::handle + admin wiring",
             "All-paths structural decision over the type-checked MIR: wait_paused creates the Notified future on paused_waiter before it loads `paused`, awaits that very future only on the paused==true edge and does not suspend otherwise; resume stores false before Notify::notify_waiters (not notify_one); pause only stores true; `paused` has no other writer and paused_waiter no other notifier; each ConnectionPool is built with its own flag and Notify; every idle-loop iteration of Client::handle that checks out has awaited wait_paused() on its own pool before, with no server I/O earlier; admin PAUSE/RESUME visit every pool (loop over get_all_pools) or the named pool and reply with ReadyForQuery. These are exactly the orderings the documented tokio Notify contract needs for freedom from lost wake-ups.",
             "Interleavings are not explored; tokio's Notify contract is trusted. " + TRUST, "DESIGN.md §4 C16"),
+    "C07": ("who-may-write on the ban list + value-edge path rules in ConnectionPool::get/run_health_check/try_unban and the client's I/O helpers + provenance of timeouts",
+            "All-sites/all-paths structural decision over the type-checked MIR: the ban list is inserted into only by ban(), only over role != Primary, with the address it was given; a failed bb8 checkout or health check bans the tried candidate and continues with the next one, run_health_check returns false only after mark_bad and ban, send/receive helpers return Err only after banning; from is_banned()==true the checkout is reached only over try_unban()==true, every candidate is tested, a just-unbanned address forces a health check and the fast return depends on that flag; AllServersDown is returned only when candidates are exhausted; removals happen only in unban/try_unban, unban-all is tied to `banned == count(role==Replica)`, expiry compares with ban_time or the admin duration; the health check and every client-path Server::recv run under timeouts taken from healthcheck_timeout / statement_timeout, connects under connect_timeout.",
+            "Detection latency, fault sequences and candidate ordering are not decided; server I/O in sync_parameters/checkin_cleanup/register_prepared_statement is not under a pgcat timeout (reported). " + TRUST, "DESIGN.md §4 C07"),
 }
 
 NOT_APPLICABLE = {}
